@@ -131,47 +131,45 @@ def exec (R : Nat → Nat) (st : State) : List Act → Option State
       | some st' => exec R st' as
       | none => none
 
-/-! ## finite candidate solutions and the decidable checker -/
+/-! ## finite candidate solutions and the decidable checker
+
+The checker is written for evaluation *inside the Lean kernel* (`decide +kernel`, no `native_decide`): the
+tables are single natural numbers (GMP arithmetic in the kernel), sets are bit masks, and the members of a
+mask are enumerated through `Nat.log2`. -/
 
 /-- encoding of abstract objects as bit positions: `owned ↦ 0`, `site s ↦ s+1` -/
 def enc : AObj → Nat
   | .owned => 0
   | .site s => s + 1
 
-/-- a candidate solution: `pts[x]` and `cont[o]` are bit masks over encoded abstract objects,
-    all below `2^nObj` -/
+/-- a candidate solution.  `pts` is the concatenation of one `w`-bit mask per variable (variable `x` occupies
+    bits `x*w … x*w+w-1`), `cont` one `w`-bit mask per encoded abstract object; bit `enc o` of a mask says
+    that `o` is in the set. -/
 structure SolB where
-  nObj : Nat
-  pts : List Nat
-  cont : List Nat
+  w : Nat
+  pts : Nat
+  cont : Nat
   deriving Repr, BEq, DecidableEq
 
-def SolB.ptsOf (b : SolB) (x : Var) : Nat := b.pts.getD x 0
-def SolB.contOf (b : SolB) (o : Nat) : Nat := b.cont.getD o 0
+def SolB.ptsOf (b : SolB) (x : Var) : Nat := (b.pts >>> (x * b.w)) % 2 ^ b.w
+def SolB.contOf (b : SolB) (o : Nat) : Nat := (b.cont >>> (o * b.w)) % 2 ^ b.w
 
 /-- `a ⊆ b` on bit masks -/
 def subset (a b : Nat) : Bool := a &&& b == a
 
-/-- for every object `o < n` in mask `m`: `f o` -/
-def allIn (n : Nat) (m : Nat) (f : Nat → Bool) : Bool :=
-  (List.range n).all fun o => !(m.testBit o) || f o
+/-- `f o` for every set bit `o` of `m` (highest first); `false` if more than `fuel` bits are set -/
+def forBits (f : Nat → Bool) : Nat → Nat → Bool
+  | 0, m => m == 0
+  | k + 1, m => m == 0 || (f m.log2 && forBits f k (m ^^^ (1 <<< m.log2)))
 
 /-- the inclusion constraint generated by one instruction -/
 def instrOk (b : SolB) : Instr → Bool
   | .new x s => (b.ptsOf x).testBit (s + 1)
   | .copy x y => subset (b.ptsOf y) (b.ptsOf x)
-  | .store y v => allIn b.nObj (b.ptsOf y) fun o => subset (b.ptsOf v) (b.contOf o)
-  | .setattr y v => allIn b.nObj (b.ptsOf y) fun o => subset (b.ptsOf v) (b.contOf o)
-  | .elem x y => allIn b.nObj (b.ptsOf y) fun o => subset (b.contOf o) (b.ptsOf x)
+  | .store y v => forBits (fun o => subset (b.ptsOf v) (b.contOf o)) b.w (b.ptsOf y)
+  | .setattr y v => forBits (fun o => subset (b.ptsOf v) (b.contOf o)) b.w (b.ptsOf y)
+  | .elem x y => forBits (fun o => subset (b.contOf o) (b.ptsOf x)) b.w (b.ptsOf y)
   | _ => true
-
-/-- the checker: `b` is a post-fixpoint of the constraint system of `p`
-    (masks bounded; `owned ∈ cont owned`; parameters point to `owned`; every instruction's inclusion) -/
-def isPostFixpoint (p : Prog) (b : SolB) : Bool :=
-  b.pts.all (fun m => m >>> b.nObj == 0)
-  && (b.contOf 0).testBit 0
-  && p.params.all (fun x => (b.ptsOf x).testBit 0)
-  && p.instrs.all (instrOk b)
 
 /-- no `write x` / `store x _` may hit a variable that can point to `owned`
     (`setattr` is exempt: attribute tables of instances are not arrays or lists) -/
@@ -180,8 +178,20 @@ def writeOk (b : SolB) : Instr → Bool
   | .store y _ => !(b.ptsOf y).testBit 0
   | _ => true
 
+/-- `owned ∈ cont owned`, and every parameter points to `owned` -/
+def headOk (p : Prog) (b : SolB) : Bool :=
+  (b.contOf 0).testBit 0 && p.params.all (fun x => (b.ptsOf x).testBit 0)
+
+/-- the checker: `b` is a post-fixpoint of the constraint system of `p` -/
+def isPostFixpoint (p : Prog) (b : SolB) : Bool :=
+  headOk p b && p.instrs.all (instrOk b)
+
 def safe (p : Prog) (b : SolB) : Bool :=
   isPostFixpoint p b && p.instrs.all (writeOk b)
+
+/-- both checks on a slice of the instruction list (the generated obligations are discharged slice by slice,
+    which keeps the kernel's recursion shallow) -/
+def chunkOk (b : SolB) (is : List Instr) : Bool := is.all (fun i => instrOk b i && writeOk b i)
 
 /-! ## global-state classification -/
 
@@ -213,26 +223,40 @@ def setAt (l : List Nat) (i : Nat) (f : Nat → Nat) : List Nat :=
 /-- objects `< n` whose bit is set in `m` -/
 def members (n m : Nat) : List Nat := (List.range n).filter fun o => m.testBit o
 
-def relax (b : SolB) : Instr → SolB
+/-- the solver's working state: masks as lists -/
+structure SolL where
+  n : Nat
+  pts : List Nat
+  cont : List Nat
+  deriving BEq
+
+def SolL.ptsOf (b : SolL) (x : Nat) : Nat := b.pts.getD x 0
+def SolL.contOf (b : SolL) (o : Nat) : Nat := b.cont.getD o 0
+
+def relax (b : SolL) : Instr → SolL
   | .new x s => { b with pts := setAt b.pts x (· ||| (1 <<< (s + 1))) }
   | .copy x y => { b with pts := setAt b.pts x (· ||| b.ptsOf y) }
-  | .store y v => { b with cont := (members b.nObj (b.ptsOf y)).foldl (fun c o => setAt c o (· ||| b.ptsOf v)) b.cont }
-  | .setattr y v => { b with cont := (members b.nObj (b.ptsOf y)).foldl (fun c o => setAt c o (· ||| b.ptsOf v)) b.cont }
-  | .elem x y => { b with pts := setAt b.pts x (· ||| (members b.nObj (b.ptsOf y)).foldl (fun m o => m ||| b.contOf o) 0) }
+  | .store y v => { b with cont := (members b.n (b.ptsOf y)).foldl (fun c o => setAt c o (· ||| b.ptsOf v)) b.cont }
+  | .setattr y v => { b with cont := (members b.n (b.ptsOf y)).foldl (fun c o => setAt c o (· ||| b.ptsOf v)) b.cont }
+  | .elem x y => { b with pts := setAt b.pts x (· ||| (members b.n (b.ptsOf y)).foldl (fun m o => m ||| b.contOf o) 0) }
   | _ => b
 
 def maxSite (is : List Instr) : Nat :=
   is.foldl (fun m i => match i with | .new _ s => max m (s + 1) | _ => m) 0
 
-/-- iterate `relax` over the whole program `fuel` times (or until nothing changes) -/
+def pack (w : Nat) (l : List Nat) : Nat :=
+  (l.foldl (fun (acc : Nat × Nat) m => (acc.1 ||| (m <<< (acc.2 * w)), acc.2 + 1)) (0, 0)).1
+
+/-- iterate `relax` over the whole program `fuel` times (or until nothing changes), then pack the tables -/
 def solve (p : Prog) (fuel : Nat := 64) : SolB :=
   let n := maxSite p.instrs + 1
-  let b0 : SolB := { nObj := n, pts := p.params.foldl (fun l x => setAt l x (· ||| 1)) [], cont := [1] }
-  let rec go : Nat → SolB → SolB
+  let b0 : SolL := { n := n, pts := p.params.foldl (fun l x => setAt l x (· ||| 1)) [], cont := [1] }
+  let rec go : Nat → SolL → SolL
     | 0, b => b
     | k + 1, b =>
       let b' := p.instrs.foldl relax b
       if b' == b then b else go k b'
-  go fuel b0
+  let r := go fuel b0
+  { w := n, pts := pack n r.pts, cont := pack n r.cont }
 
 end PersimVerif.IR
